@@ -38,6 +38,10 @@ type SourceConfig struct {
 	// Stamp, when set, is called (with the server lock held) for every PSYNC; the value is stored
 	// in the event (harnesses use one shared counter to order events of several doubles).
 	Stamp func() int64
+	// OnPsync, when set, is called (with the server lock and the source's lock held: it must not
+	// call back into this server or its Source) once a PSYNC has been decided, before the answer
+	// is written.
+	OnPsync func(ev PsyncEvent)
 }
 
 // PsyncEvent is one PSYNC request and its answer.
@@ -121,6 +125,7 @@ type Source struct {
 	hbReply    int
 	hbRDB      int
 	stamp      func() int64
+	onPsync    func(PsyncEvent)
 
 	wake     chan struct{}
 	stopped  bool
@@ -179,6 +184,7 @@ func (src *Source) apply(cfg SourceConfig) {
 	src.rdb, src.rdbFunc = cfg.RDB, cfg.RDBFunc
 	src.hbReply, src.hbRDB = cfg.HeartbeatsBeforeReply, cfg.HeartbeatsBeforeRDB
 	src.stamp = cfg.Stamp
+	src.onPsync = cfg.OnPsync
 }
 
 // Reconfigure replaces identity, history and dataset (a failover / restart of the source seen at
@@ -491,6 +497,9 @@ func cmdPsync(s *Server, c *conn, req *Req) (Reply, action) {
 		src.armDrop = -1
 	}
 	src.log = append(src.log, ev)
+	if src.onPsync != nil {
+		src.onPsync(ev)
+	}
 	src.pending[c] = sess
 	c.repl = true
 	return Status(ev.Reply), actReplStream
